@@ -11,8 +11,8 @@ import (
 	"math/big"
 	"os"
 	"os/exec"
-	"strconv"
 	"sort"
+	"strconv"
 	"strings"
 	"sync"
 	"time"
@@ -467,7 +467,14 @@ func run(tier core.Tier) *core.Report {
 			b = 1
 		}
 		if p.LockOnly {
+			// bound 3 is what reaches the phantom shared lock at state level (3 threads)
 			b = 3
+			if tier == core.Quick {
+				b = 2
+			}
+		}
+		if tier == core.Quick && p.Name == "lock_rrww4" {
+			continue
 		}
 		if tier == core.Thorough && !heavy[p.Name] {
 			b = 3
@@ -540,10 +547,42 @@ func run(tier core.Tier) *core.Report {
 	rep.Set("schedules", totalExec)
 	rep.Set("bound", bounds)
 	rep.Set("exhaustive", exh)
+	if only == "" {
+		core.RacePass(rep, "C12", "c12")
+	}
 	rep.Assume("scheduling points are the synchronisation operations of the rewritten packages (state/utxo, state/xmodel, state/meta, tx) and storage batch writes; unsynchronised accesses are the race pass's business")
 	rep.Assume("wall-clock expiry of selection locks (60 s) and pool entries (300 s) never fires inside an execution")
 	rep.Assume("a submission is VerifyTx followed by DoTx, as Chain.SubmitTx does")
 	return rep
+}
+
+// racePass runs every pattern's bodies as free goroutines (no scheduler) so a
+// -race build can see unsynchronised accesses.
+func racePass() {
+	world.Init()
+	vhook.Release()
+	for _, p := range patternsA {
+		for r := 0; r < 100; r++ {
+			freeRun(newA(p)())
+		}
+	}
+	for _, p := range patternsB {
+		for r := 0; r < 30; r++ {
+			freeRun(newB(p, false)())
+		}
+	}
+}
+
+func freeRun(in vsched.Instance) {
+	var wg sync.WaitGroup
+	for _, b := range in.Bodies {
+		wg.Add(1)
+		go func(b func()) { defer wg.Done(); b() }(b)
+	}
+	wg.Wait()
+	if in.Cleanup != nil {
+		in.Cleanup()
+	}
 }
 
 func replay(c json.RawMessage) (bool, string, error) {
@@ -577,4 +616,5 @@ func replay(c json.RawMessage) (bool, string, error) {
 func init() {
 	core.Register(&core.Check{ID: "C12", Run: run, Replay: replay})
 	core.RegisterCmd("c12worker", worker)
+	core.RegisterRace("C12", racePass)
 }
